@@ -70,6 +70,11 @@ def run(ctx):
             if np.linalg.cond(Ah) > 1e3 or np.linalg.cond(Ag) > 1e2:
                 continue
             x0 = np.array([rng.uniform(-1, 1) for _ in range(n)]).astype(b.dtype)
+            if si % 4 == 1:
+                # zero guess and an exact zero in the leading entry of the initial residual
+                x0 = np.zeros_like(b)
+                b = b.copy()
+                b[0] = 0.0
             useM = rng.random() < 0.5 or si < 2
             Md = np.diag([rng.choice([0.5, 1.0, 2.0, 0.25]) for _ in range(n)]) if useM else None
             Mi = Md if Md is not None else np.eye(n)
